@@ -3442,13 +3442,547 @@ pub proof fn lemma_lead_empty7(a: Seq<u8>, b: Seq<u8>, c: Seq<u8>, d: Seq<u8>, e
     }
 //@end
 
+
+// ---------------------------------------------------------------------------------------------------------------------------------
+// MQTT 5 PUBACK / PUBREC / PUBREL / PUBCOMP on the wire (C02, C05), OASIS 5.0 sections 3.4-3.7: fixed header, Remaining Length, Packet Identifier,
+// then - unless the reason code is Success and there are no properties (Remaining Length 2) - the reason code, and - unless there are no
+// properties (Remaining Length 3) - the property length, the reason string and the user properties. All four are instances of one macro.
+//@macro gneiss-mqtt/src/encode.rs add_optional_string_property_length
+//@macro gneiss-mqtt/src/encode.rs encode_enum
+// proved in the validate unit (same contract); a signature-only stub here
+//@fn gneiss-mqtt/src/encode.rs compute_user_properties_length stub
+    requires ups_ok(*properties), properties matches Some(ps) ==> count_ok(ps@.len()),
+    ensures r == opt_user_props_len(*properties), r <= 16777216 * 131075,
+//@end
+pub open spec fn ack5_props_len(rs: Option<String>, ups: Option<Vec<UserProperty>>) -> nat { opt_user_props_len(ups) + opt_strprop_len(rs) }
+pub open spec fn ack5_bytes(first: u8, id: u16, rc: u8, success: bool, rs: Option<String>, ups: Option<Vec<UserProperty>>) -> Seq<u8> {
+    let plen = ack5_props_len(rs, ups);
+    if plen == 0 {
+        if success { seq![first] + vli(2) + be16_bytes(id) } else { seq![first] + vli(3) + be16_bytes(id) + seq![rc] }
+    } else {
+        seq![first] + vli(3 + plen + vli_len(plen)) + be16_bytes(id) + seq![rc] + vli(plen) + opt_str_prop_bytes(31u8, rs) + ups_piece(ups)
+    }
+}
+pub open spec fn ack5_sendable(rs: Option<String>, ups: Option<Vec<UserProperty>>) -> bool {
+    &&& ups_ok(ups) && opt_str_ok(rs) && (ups matches Some(ps) ==> count_ok(ps@.len()))
+    &&& 3 + ack5_props_len(rs, ups) + vli_len(ack5_props_len(rs, ups)) <= 268435455
+}
+pub proof fn lemma_g_regroup3(s0: Seq<EncodingStep>, cur: Seq<EncodingStep>, pre: Seq<u8>, b0: Seq<u8>, b1: Seq<u8>, b2: Seq<u8>, pk0: MqttPacket)
+    requires g_inv(s0, cur, pre + b0 + b1 + b2, pk0),
+    ensures g_inv(s0, cur, pre + (b0 + b1 + b2), pk0),
+{ assert(pre + b0 + b1 + b2 =~= pre + (b0 + b1 + b2)); }
+pub proof fn lemma_lead_empty3(a: Seq<u8>, b: Seq<u8>, c: Seq<u8>) ensures Seq::<u8>::empty() + a + b + c == a + b + c { assert(Seq::<u8>::empty() + a + b + c =~= a + b + c); }
+pub proof fn lemma_lead_empty4(a: Seq<u8>, b: Seq<u8>, c: Seq<u8>, d: Seq<u8>) ensures Seq::<u8>::empty() + a + b + c + d == a + b + c + d { assert(Seq::<u8>::empty() + a + b + c + d =~= a + b + c + d); }
+
+//@fn gneiss-mqtt/src/mqtt/puback.rs get_puback_packet_reason_string props=C02 via=gneiss-mqtt/src/encode.rs:define_ack_packet_reason_string_accessor
+    requires packet matches MqttPacket::Puback(p) && p.reason_string is Some,
+    ensures packet matches MqttPacket::Puback(p) && p.reason_string matches Some(t) && r@ == t@,
+//@end
+//@fn gneiss-mqtt/src/mqtt/puback.rs get_puback_packet_user_property props=C02 via=gneiss-mqtt/src/encode.rs:define_ack_packet_user_property_accessor
+    requires packet matches MqttPacket::Puback(p) && p.user_properties matches Some(ups) && index < ups@.len(),
+    ensures packet matches MqttPacket::Puback(p) && p.user_properties matches Some(ups) && *r == ups@[index as int],
+//@end
+//@fn gneiss-mqtt/src/mqtt/puback.rs compute_puback_packet_length_properties props=C02 via=gneiss-mqtt/src/encode.rs:define_ack_packet_lengths_function
+    requires ack5_sendable(packet.reason_string, packet.user_properties),
+    ensures
+        r matches Ok((rem, props)) && props == ack5_props_len(packet.reason_string, packet.user_properties)
+            && rem == (if props == 0 { if packet.reason_code == PubackReasonCode::Success { 2int } else { 3 } } else { 3 + props + vli_len(props as nat) }),
+//@@at bodystart
+    proof { if packet.user_properties is Some { lemma_ups_len_bound(packet.user_properties->Some_0@, packet.user_properties->Some_0@.len()); } }
+//@@at before "Ok(((3 + property_section_length"
+    proof { lemma_vli_len(property_section_length as nat); }
+//@end
+
+//@fn gneiss-mqtt/src/mqtt/puback.rs write_puback_encoding_steps5 props=C02,C05 via=gneiss-mqtt/src/encode.rs:define_ack_packet_encoding_impl5 desugar fnptr_opaque expand=gneiss-mqtt/src/encode.rs:encode_user_properties+gneiss-mqtt/src/encode.rs:encode_user_property
+//@@attr #[verifier::rlimit(100)]
+//@@attr #[verifier::spinoff_prover]
+    requires
+        ack5_sendable(packet.reason_string, packet.user_properties),
+    ensures
+        r is Ok,
+        steps_wf(old(steps)@, MqttPacket::Puback(*packet)) ==> steps_wf(final(steps)@, MqttPacket::Puback(*packet)),
+        flat(final(steps)@, MqttPacket::Puback(*packet)) == flat(old(steps)@, MqttPacket::Puback(*packet)) + ack5_bytes(0x40u8, packet.packet_id, packet.reason_code as u8, packet.reason_code == PubackReasonCode::Success, packet.reason_string, packet.user_properties),
+//@@at bodystart
+    let ghost s0 = steps@;
+    let ghost mut cur = steps@;
+    let ghost mut acc = Seq::<u8>::empty();
+    let ghost mut pre5 = Seq::<u8>::empty();
+    let ghost pk0 = MqttPacket::Puback(*packet);
+    let ghost plen = ack5_props_len(packet.reason_string, packet.user_properties);
+    proof { lemma_g_init(s0, pk0); }
+//@@at after "encode_integral_expression!(steps, Uint8, PUBACK_FIRST_BYTE);"
+    proof {
+        assert(PUBACK_FIRST_BYTE == 0x40u8) by (compute);
+        { let x = EncodingStep::Uint8(0x40u8); lemma_g_whole_int(x, pk0); lemma_g_push1(s0, cur, x, acc, int_bytes(x), pk0); cur = cur.push(x); acc = acc + int_bytes(x); }
+        assert(steps@ == cur);
+    }
+//@@at after "encode_integral_expression!(steps, Vli, total_remaining_length);"
+    proof {
+        { let x = EncodingStep::Vli(total_remaining_length); lemma_g_whole_int(x, pk0); lemma_g_push1(s0, cur, x, acc, int_bytes(x), pk0); cur = cur.push(x); acc = acc + int_bytes(x); }
+        assert(steps@ == cur);
+    }
+//@@at after "encode_integral_expression!(steps, Uint16, packet.packet_id);"
+    proof {
+        { let x = EncodingStep::Uint16(packet.packet_id); lemma_g_whole_int(x, pk0); lemma_g_push1(s0, cur, x, acc, int_bytes(x), pk0); cur = cur.push(x); acc = acc + int_bytes(x); }
+        assert(steps@ == cur);
+    }
+//@@at before "return Ok(()); @nth=1/2"
+        proof {
+            lemma_g_final(s0, cur, acc, pk0);
+            lemma_lead_empty3(seq![0x40u8], vli(2), be16_bytes(packet.packet_id));
+            assert(acc == ack5_bytes(0x40u8, packet.packet_id, packet.reason_code as u8, packet.reason_code == PubackReasonCode::Success, packet.reason_string, packet.user_properties));
+        }
+//@@at after "encode_enum!(steps, Uint8, u8, packet.reason_code);"
+    proof {
+        { let x = EncodingStep::Uint8(packet.reason_code as u8); lemma_g_whole_int(x, pk0); lemma_g_push1(s0, cur, x, acc, int_bytes(x), pk0); cur = cur.push(x); acc = acc + int_bytes(x); }
+        assert(steps@ == cur);
+    }
+//@@at before "return Ok(()); @nth=2/2"
+        proof {
+            lemma_g_final(s0, cur, acc, pk0);
+            lemma_lead_empty4(seq![0x40u8], vli(3), be16_bytes(packet.packet_id), seq![packet.reason_code as u8]);
+            assert(acc == ack5_bytes(0x40u8, packet.packet_id, packet.reason_code as u8, packet.reason_code == PubackReasonCode::Success, packet.reason_string, packet.user_properties));
+        }
+//@@at after "encode_integral_expression!(steps, Vli, property_length);"
+    proof {
+        { let x = EncodingStep::Vli(property_length); lemma_g_whole_int(x, pk0); lemma_g_push1(s0, cur, x, acc, int_bytes(x), pk0); cur = cur.push(x); acc = acc + int_bytes(x); }
+        assert(steps@ == cur);
+    }
+//@@at after "encode_optional_string_property!(steps, get_puback_packet_reason_string, PROPERTY_KEY_REASON_STRING, packet.reason_string);"
+    proof {
+        let pre = acc;
+        if packet.reason_string is Some {
+            { let x = EncodingStep::Uint8(31u8); lemma_g_whole_int(x, pk0); lemma_g_push1(s0, cur, x, acc, int_bytes(x), pk0); cur = cur.push(x); acc = acc + int_bytes(x); }
+            { let x = EncodingStep::Uint16(blen(packet.reason_string->Some_0@) as u16); lemma_g_whole_int(x, pk0); lemma_g_push1(s0, cur, x, acc, int_bytes(x), pk0); cur = cur.push(x); acc = acc + int_bytes(x); }
+            { let y = steps@[steps@.len() - 1]; assert(g_whole(y, str_bytes(packet.reason_string->Some_0@), pk0)) by { reveal(g_whole); assert(get_puback_packet_reason_string.requires((&pk0,))); } assert(step_off(y) == 0); lemma_g_push1(s0, cur, y, acc, str_bytes(packet.reason_string->Some_0@), pk0); cur = cur.push(y); acc = acc + str_bytes(packet.reason_string->Some_0@); }
+            lemma_g_regroup3(s0, cur, pre, seq![31u8], be16_bytes(blen(packet.reason_string->Some_0@) as u16), str_bytes(packet.reason_string->Some_0@), pk0);
+        } else { lemma_g_regroup0(s0, cur, pre, pk0); }
+        assert(steps@ == cur);
+        acc = pre + opt_str_prop_bytes(31u8, packet.reason_string); pre5 = acc;
+    }
+//@@at before "let mut verif_enum0: usize = 0;"
+            proof {
+                lemma_g_regroup0(s0, cur, pre5, pk0);
+            }
+//@@loop 0 iter=it
+            invariant
+                packet.user_properties is Some, properties@ == packet.user_properties->Some_0@, it.seq().len() == properties@.len(), count_ok(properties@.len()),
+                ups_ok(packet.user_properties), pk0 == MqttPacket::Puback(*packet),
+                verif_enum0 == it.index@,
+                cur == steps@,
+                g_inv(s0, steps@, pre5 + ups_bytes(properties@, it.index@ as nat), pk0),
+                it.index@ == it.seq().len() ==> g_inv(s0, steps@, pre5 + ups_piece(packet.user_properties), pk0),
+//@@at before "verif_enum0 += 1;"
+                proof { assert(it.index@ < it.seq().len()); }
+//@@bodyend_of_loop 0
+                proof {
+                    let n = it.index@;
+                    let u = properties@[n];
+                    assert(*user_property == u);
+                    assert(up_ok(u));
+                    acc = pre5 + ups_bytes(properties@, n as nat);
+                    { let x = EncodingStep::Uint8(38u8); lemma_g_whole_int(x, pk0); lemma_g_push1(s0, cur, x, acc, int_bytes(x), pk0); cur = cur.push(x); acc = acc + int_bytes(x); }
+                    { let x = EncodingStep::Uint16(blen(u.name@) as u16); lemma_g_whole_int(x, pk0); lemma_g_push1(s0, cur, x, acc, int_bytes(x), pk0); cur = cur.push(x); acc = acc + int_bytes(x); }
+                    { let y = steps@[steps@.len() - 3]; assert(g_whole(y, str_bytes(u.name@), pk0)) by { reveal(g_whole); assert(get_puback_packet_user_property.requires((&pk0, i))); } assert(step_off(y) == 0); lemma_g_push1(s0, cur, y, acc, str_bytes(u.name@), pk0); cur = cur.push(y); acc = acc + str_bytes(u.name@); }
+                    { let x = EncodingStep::Uint16(blen(u.value@) as u16); lemma_g_whole_int(x, pk0); lemma_g_push1(s0, cur, x, acc, int_bytes(x), pk0); cur = cur.push(x); acc = acc + int_bytes(x); }
+                    { let y = steps@[steps@.len() - 1]; assert(g_whole(y, str_bytes(u.value@), pk0)) by { reveal(g_whole); assert(get_puback_packet_user_property.requires((&pk0, i))); } assert(step_off(y) == 0); lemma_g_push1(s0, cur, y, acc, str_bytes(u.value@), pk0); cur = cur.push(y); acc = acc + str_bytes(u.value@); }
+                    assert(steps@ == cur);
+                    lemma_g_regroup_up(s0, cur, pre5, properties@, n as nat, pk0);
+                }
+//@@at before "Ok(()) @nth=3/3"
+    proof {
+        if packet.user_properties is None { lemma_g_regroup0(s0, cur, pre5, pk0); }
+        acc = pre5 + ups_piece(packet.user_properties);
+        lemma_g_final(s0, cur, acc, pk0);
+        lemma_lead_empty7(seq![0x40u8], vli((3 + plen + vli_len(plen)) as nat), be16_bytes(packet.packet_id), seq![packet.reason_code as u8], vli(plen), opt_str_prop_bytes(31u8, packet.reason_string), ups_piece(packet.user_properties));
+        assert(acc == ack5_bytes(0x40u8, packet.packet_id, packet.reason_code as u8, packet.reason_code == PubackReasonCode::Success, packet.reason_string, packet.user_properties));
+    }
+//@end
+
+//@fn gneiss-mqtt/src/mqtt/pubrec.rs get_pubrec_packet_reason_string props=C02 via=gneiss-mqtt/src/encode.rs:define_ack_packet_reason_string_accessor
+    requires packet matches MqttPacket::Pubrec(p) && p.reason_string is Some,
+    ensures packet matches MqttPacket::Pubrec(p) && p.reason_string matches Some(t) && r@ == t@,
+//@end
+//@fn gneiss-mqtt/src/mqtt/pubrec.rs get_pubrec_packet_user_property props=C02 via=gneiss-mqtt/src/encode.rs:define_ack_packet_user_property_accessor
+    requires packet matches MqttPacket::Pubrec(p) && p.user_properties matches Some(ups) && index < ups@.len(),
+    ensures packet matches MqttPacket::Pubrec(p) && p.user_properties matches Some(ups) && *r == ups@[index as int],
+//@end
+//@fn gneiss-mqtt/src/mqtt/pubrec.rs compute_pubrec_packet_length_properties props=C02 via=gneiss-mqtt/src/encode.rs:define_ack_packet_lengths_function
+    requires ack5_sendable(packet.reason_string, packet.user_properties),
+    ensures
+        r matches Ok((rem, props)) && props == ack5_props_len(packet.reason_string, packet.user_properties)
+            && rem == (if props == 0 { if packet.reason_code == PubrecReasonCode::Success { 2int } else { 3 } } else { 3 + props + vli_len(props as nat) }),
+//@@at bodystart
+    proof { if packet.user_properties is Some { lemma_ups_len_bound(packet.user_properties->Some_0@, packet.user_properties->Some_0@.len()); } }
+//@@at before "Ok(((3 + property_section_length"
+    proof { lemma_vli_len(property_section_length as nat); }
+//@end
+
+//@fn gneiss-mqtt/src/mqtt/pubrec.rs write_pubrec_encoding_steps5 props=C02,C05 via=gneiss-mqtt/src/encode.rs:define_ack_packet_encoding_impl5 desugar fnptr_opaque expand=gneiss-mqtt/src/encode.rs:encode_user_properties+gneiss-mqtt/src/encode.rs:encode_user_property
+//@@attr #[verifier::rlimit(100)]
+//@@attr #[verifier::spinoff_prover]
+    requires
+        ack5_sendable(packet.reason_string, packet.user_properties),
+    ensures
+        r is Ok,
+        steps_wf(old(steps)@, MqttPacket::Pubrec(*packet)) ==> steps_wf(final(steps)@, MqttPacket::Pubrec(*packet)),
+        flat(final(steps)@, MqttPacket::Pubrec(*packet)) == flat(old(steps)@, MqttPacket::Pubrec(*packet)) + ack5_bytes(0x50u8, packet.packet_id, packet.reason_code as u8, packet.reason_code == PubrecReasonCode::Success, packet.reason_string, packet.user_properties),
+//@@at bodystart
+    let ghost s0 = steps@;
+    let ghost mut cur = steps@;
+    let ghost mut acc = Seq::<u8>::empty();
+    let ghost mut pre5 = Seq::<u8>::empty();
+    let ghost pk0 = MqttPacket::Pubrec(*packet);
+    let ghost plen = ack5_props_len(packet.reason_string, packet.user_properties);
+    proof { lemma_g_init(s0, pk0); }
+//@@at after "encode_integral_expression!(steps, Uint8, PUBREC_FIRST_BYTE);"
+    proof {
+        assert(PUBREC_FIRST_BYTE == 0x50u8) by (compute);
+        { let x = EncodingStep::Uint8(0x50u8); lemma_g_whole_int(x, pk0); lemma_g_push1(s0, cur, x, acc, int_bytes(x), pk0); cur = cur.push(x); acc = acc + int_bytes(x); }
+        assert(steps@ == cur);
+    }
+//@@at after "encode_integral_expression!(steps, Vli, total_remaining_length);"
+    proof {
+        { let x = EncodingStep::Vli(total_remaining_length); lemma_g_whole_int(x, pk0); lemma_g_push1(s0, cur, x, acc, int_bytes(x), pk0); cur = cur.push(x); acc = acc + int_bytes(x); }
+        assert(steps@ == cur);
+    }
+//@@at after "encode_integral_expression!(steps, Uint16, packet.packet_id);"
+    proof {
+        { let x = EncodingStep::Uint16(packet.packet_id); lemma_g_whole_int(x, pk0); lemma_g_push1(s0, cur, x, acc, int_bytes(x), pk0); cur = cur.push(x); acc = acc + int_bytes(x); }
+        assert(steps@ == cur);
+    }
+//@@at before "return Ok(()); @nth=1/2"
+        proof {
+            lemma_g_final(s0, cur, acc, pk0);
+            lemma_lead_empty3(seq![0x50u8], vli(2), be16_bytes(packet.packet_id));
+            assert(acc == ack5_bytes(0x50u8, packet.packet_id, packet.reason_code as u8, packet.reason_code == PubrecReasonCode::Success, packet.reason_string, packet.user_properties));
+        }
+//@@at after "encode_enum!(steps, Uint8, u8, packet.reason_code);"
+    proof {
+        { let x = EncodingStep::Uint8(packet.reason_code as u8); lemma_g_whole_int(x, pk0); lemma_g_push1(s0, cur, x, acc, int_bytes(x), pk0); cur = cur.push(x); acc = acc + int_bytes(x); }
+        assert(steps@ == cur);
+    }
+//@@at before "return Ok(()); @nth=2/2"
+        proof {
+            lemma_g_final(s0, cur, acc, pk0);
+            lemma_lead_empty4(seq![0x50u8], vli(3), be16_bytes(packet.packet_id), seq![packet.reason_code as u8]);
+            assert(acc == ack5_bytes(0x50u8, packet.packet_id, packet.reason_code as u8, packet.reason_code == PubrecReasonCode::Success, packet.reason_string, packet.user_properties));
+        }
+//@@at after "encode_integral_expression!(steps, Vli, property_length);"
+    proof {
+        { let x = EncodingStep::Vli(property_length); lemma_g_whole_int(x, pk0); lemma_g_push1(s0, cur, x, acc, int_bytes(x), pk0); cur = cur.push(x); acc = acc + int_bytes(x); }
+        assert(steps@ == cur);
+    }
+//@@at after "encode_optional_string_property!(steps, get_pubrec_packet_reason_string, PROPERTY_KEY_REASON_STRING, packet.reason_string);"
+    proof {
+        let pre = acc;
+        if packet.reason_string is Some {
+            { let x = EncodingStep::Uint8(31u8); lemma_g_whole_int(x, pk0); lemma_g_push1(s0, cur, x, acc, int_bytes(x), pk0); cur = cur.push(x); acc = acc + int_bytes(x); }
+            { let x = EncodingStep::Uint16(blen(packet.reason_string->Some_0@) as u16); lemma_g_whole_int(x, pk0); lemma_g_push1(s0, cur, x, acc, int_bytes(x), pk0); cur = cur.push(x); acc = acc + int_bytes(x); }
+            { let y = steps@[steps@.len() - 1]; assert(g_whole(y, str_bytes(packet.reason_string->Some_0@), pk0)) by { reveal(g_whole); assert(get_pubrec_packet_reason_string.requires((&pk0,))); } assert(step_off(y) == 0); lemma_g_push1(s0, cur, y, acc, str_bytes(packet.reason_string->Some_0@), pk0); cur = cur.push(y); acc = acc + str_bytes(packet.reason_string->Some_0@); }
+            lemma_g_regroup3(s0, cur, pre, seq![31u8], be16_bytes(blen(packet.reason_string->Some_0@) as u16), str_bytes(packet.reason_string->Some_0@), pk0);
+        } else { lemma_g_regroup0(s0, cur, pre, pk0); }
+        assert(steps@ == cur);
+        acc = pre + opt_str_prop_bytes(31u8, packet.reason_string); pre5 = acc;
+    }
+//@@at before "let mut verif_enum0: usize = 0;"
+            proof {
+                lemma_g_regroup0(s0, cur, pre5, pk0);
+            }
+//@@loop 0 iter=it
+            invariant
+                packet.user_properties is Some, properties@ == packet.user_properties->Some_0@, it.seq().len() == properties@.len(), count_ok(properties@.len()),
+                ups_ok(packet.user_properties), pk0 == MqttPacket::Pubrec(*packet),
+                verif_enum0 == it.index@,
+                cur == steps@,
+                g_inv(s0, steps@, pre5 + ups_bytes(properties@, it.index@ as nat), pk0),
+                it.index@ == it.seq().len() ==> g_inv(s0, steps@, pre5 + ups_piece(packet.user_properties), pk0),
+//@@at before "verif_enum0 += 1;"
+                proof { assert(it.index@ < it.seq().len()); }
+//@@bodyend_of_loop 0
+                proof {
+                    let n = it.index@;
+                    let u = properties@[n];
+                    assert(*user_property == u);
+                    assert(up_ok(u));
+                    acc = pre5 + ups_bytes(properties@, n as nat);
+                    { let x = EncodingStep::Uint8(38u8); lemma_g_whole_int(x, pk0); lemma_g_push1(s0, cur, x, acc, int_bytes(x), pk0); cur = cur.push(x); acc = acc + int_bytes(x); }
+                    { let x = EncodingStep::Uint16(blen(u.name@) as u16); lemma_g_whole_int(x, pk0); lemma_g_push1(s0, cur, x, acc, int_bytes(x), pk0); cur = cur.push(x); acc = acc + int_bytes(x); }
+                    { let y = steps@[steps@.len() - 3]; assert(g_whole(y, str_bytes(u.name@), pk0)) by { reveal(g_whole); assert(get_pubrec_packet_user_property.requires((&pk0, i))); } assert(step_off(y) == 0); lemma_g_push1(s0, cur, y, acc, str_bytes(u.name@), pk0); cur = cur.push(y); acc = acc + str_bytes(u.name@); }
+                    { let x = EncodingStep::Uint16(blen(u.value@) as u16); lemma_g_whole_int(x, pk0); lemma_g_push1(s0, cur, x, acc, int_bytes(x), pk0); cur = cur.push(x); acc = acc + int_bytes(x); }
+                    { let y = steps@[steps@.len() - 1]; assert(g_whole(y, str_bytes(u.value@), pk0)) by { reveal(g_whole); assert(get_pubrec_packet_user_property.requires((&pk0, i))); } assert(step_off(y) == 0); lemma_g_push1(s0, cur, y, acc, str_bytes(u.value@), pk0); cur = cur.push(y); acc = acc + str_bytes(u.value@); }
+                    assert(steps@ == cur);
+                    lemma_g_regroup_up(s0, cur, pre5, properties@, n as nat, pk0);
+                }
+//@@at before "Ok(()) @nth=3/3"
+    proof {
+        if packet.user_properties is None { lemma_g_regroup0(s0, cur, pre5, pk0); }
+        acc = pre5 + ups_piece(packet.user_properties);
+        lemma_g_final(s0, cur, acc, pk0);
+        lemma_lead_empty7(seq![0x50u8], vli((3 + plen + vli_len(plen)) as nat), be16_bytes(packet.packet_id), seq![packet.reason_code as u8], vli(plen), opt_str_prop_bytes(31u8, packet.reason_string), ups_piece(packet.user_properties));
+        assert(acc == ack5_bytes(0x50u8, packet.packet_id, packet.reason_code as u8, packet.reason_code == PubrecReasonCode::Success, packet.reason_string, packet.user_properties));
+    }
+//@end
+
+//@fn gneiss-mqtt/src/mqtt/pubrel.rs get_pubrel_packet_reason_string props=C02 via=gneiss-mqtt/src/encode.rs:define_ack_packet_reason_string_accessor
+    requires packet matches MqttPacket::Pubrel(p) && p.reason_string is Some,
+    ensures packet matches MqttPacket::Pubrel(p) && p.reason_string matches Some(t) && r@ == t@,
+//@end
+//@fn gneiss-mqtt/src/mqtt/pubrel.rs get_pubrel_packet_user_property props=C02 via=gneiss-mqtt/src/encode.rs:define_ack_packet_user_property_accessor
+    requires packet matches MqttPacket::Pubrel(p) && p.user_properties matches Some(ups) && index < ups@.len(),
+    ensures packet matches MqttPacket::Pubrel(p) && p.user_properties matches Some(ups) && *r == ups@[index as int],
+//@end
+//@fn gneiss-mqtt/src/mqtt/pubrel.rs compute_pubrel_packet_length_properties props=C02 via=gneiss-mqtt/src/encode.rs:define_ack_packet_lengths_function
+    requires ack5_sendable(packet.reason_string, packet.user_properties),
+    ensures
+        r matches Ok((rem, props)) && props == ack5_props_len(packet.reason_string, packet.user_properties)
+            && rem == (if props == 0 { if packet.reason_code == PubrelReasonCode::Success { 2int } else { 3 } } else { 3 + props + vli_len(props as nat) }),
+//@@at bodystart
+    proof { if packet.user_properties is Some { lemma_ups_len_bound(packet.user_properties->Some_0@, packet.user_properties->Some_0@.len()); } }
+//@@at before "Ok(((3 + property_section_length"
+    proof { lemma_vli_len(property_section_length as nat); }
+//@end
+
+//@fn gneiss-mqtt/src/mqtt/pubrel.rs write_pubrel_encoding_steps5 props=C02,C05 via=gneiss-mqtt/src/encode.rs:define_ack_packet_encoding_impl5 desugar fnptr_opaque expand=gneiss-mqtt/src/encode.rs:encode_user_properties+gneiss-mqtt/src/encode.rs:encode_user_property
+//@@attr #[verifier::rlimit(100)]
+//@@attr #[verifier::spinoff_prover]
+    requires
+        ack5_sendable(packet.reason_string, packet.user_properties),
+    ensures
+        r is Ok,
+        steps_wf(old(steps)@, MqttPacket::Pubrel(*packet)) ==> steps_wf(final(steps)@, MqttPacket::Pubrel(*packet)),
+        flat(final(steps)@, MqttPacket::Pubrel(*packet)) == flat(old(steps)@, MqttPacket::Pubrel(*packet)) + ack5_bytes(0x62u8, packet.packet_id, packet.reason_code as u8, packet.reason_code == PubrelReasonCode::Success, packet.reason_string, packet.user_properties),
+//@@at bodystart
+    let ghost s0 = steps@;
+    let ghost mut cur = steps@;
+    let ghost mut acc = Seq::<u8>::empty();
+    let ghost mut pre5 = Seq::<u8>::empty();
+    let ghost pk0 = MqttPacket::Pubrel(*packet);
+    let ghost plen = ack5_props_len(packet.reason_string, packet.user_properties);
+    proof { lemma_g_init(s0, pk0); }
+//@@at after "encode_integral_expression!(steps, Uint8, PUBREL_FIRST_BYTE);"
+    proof {
+        assert(PUBREL_FIRST_BYTE == 0x62u8) by (compute);
+        { let x = EncodingStep::Uint8(0x62u8); lemma_g_whole_int(x, pk0); lemma_g_push1(s0, cur, x, acc, int_bytes(x), pk0); cur = cur.push(x); acc = acc + int_bytes(x); }
+        assert(steps@ == cur);
+    }
+//@@at after "encode_integral_expression!(steps, Vli, total_remaining_length);"
+    proof {
+        { let x = EncodingStep::Vli(total_remaining_length); lemma_g_whole_int(x, pk0); lemma_g_push1(s0, cur, x, acc, int_bytes(x), pk0); cur = cur.push(x); acc = acc + int_bytes(x); }
+        assert(steps@ == cur);
+    }
+//@@at after "encode_integral_expression!(steps, Uint16, packet.packet_id);"
+    proof {
+        { let x = EncodingStep::Uint16(packet.packet_id); lemma_g_whole_int(x, pk0); lemma_g_push1(s0, cur, x, acc, int_bytes(x), pk0); cur = cur.push(x); acc = acc + int_bytes(x); }
+        assert(steps@ == cur);
+    }
+//@@at before "return Ok(()); @nth=1/2"
+        proof {
+            lemma_g_final(s0, cur, acc, pk0);
+            lemma_lead_empty3(seq![0x62u8], vli(2), be16_bytes(packet.packet_id));
+            assert(acc == ack5_bytes(0x62u8, packet.packet_id, packet.reason_code as u8, packet.reason_code == PubrelReasonCode::Success, packet.reason_string, packet.user_properties));
+        }
+//@@at after "encode_enum!(steps, Uint8, u8, packet.reason_code);"
+    proof {
+        { let x = EncodingStep::Uint8(packet.reason_code as u8); lemma_g_whole_int(x, pk0); lemma_g_push1(s0, cur, x, acc, int_bytes(x), pk0); cur = cur.push(x); acc = acc + int_bytes(x); }
+        assert(steps@ == cur);
+    }
+//@@at before "return Ok(()); @nth=2/2"
+        proof {
+            lemma_g_final(s0, cur, acc, pk0);
+            lemma_lead_empty4(seq![0x62u8], vli(3), be16_bytes(packet.packet_id), seq![packet.reason_code as u8]);
+            assert(acc == ack5_bytes(0x62u8, packet.packet_id, packet.reason_code as u8, packet.reason_code == PubrelReasonCode::Success, packet.reason_string, packet.user_properties));
+        }
+//@@at after "encode_integral_expression!(steps, Vli, property_length);"
+    proof {
+        { let x = EncodingStep::Vli(property_length); lemma_g_whole_int(x, pk0); lemma_g_push1(s0, cur, x, acc, int_bytes(x), pk0); cur = cur.push(x); acc = acc + int_bytes(x); }
+        assert(steps@ == cur);
+    }
+//@@at after "encode_optional_string_property!(steps, get_pubrel_packet_reason_string, PROPERTY_KEY_REASON_STRING, packet.reason_string);"
+    proof {
+        let pre = acc;
+        if packet.reason_string is Some {
+            { let x = EncodingStep::Uint8(31u8); lemma_g_whole_int(x, pk0); lemma_g_push1(s0, cur, x, acc, int_bytes(x), pk0); cur = cur.push(x); acc = acc + int_bytes(x); }
+            { let x = EncodingStep::Uint16(blen(packet.reason_string->Some_0@) as u16); lemma_g_whole_int(x, pk0); lemma_g_push1(s0, cur, x, acc, int_bytes(x), pk0); cur = cur.push(x); acc = acc + int_bytes(x); }
+            { let y = steps@[steps@.len() - 1]; assert(g_whole(y, str_bytes(packet.reason_string->Some_0@), pk0)) by { reveal(g_whole); assert(get_pubrel_packet_reason_string.requires((&pk0,))); } assert(step_off(y) == 0); lemma_g_push1(s0, cur, y, acc, str_bytes(packet.reason_string->Some_0@), pk0); cur = cur.push(y); acc = acc + str_bytes(packet.reason_string->Some_0@); }
+            lemma_g_regroup3(s0, cur, pre, seq![31u8], be16_bytes(blen(packet.reason_string->Some_0@) as u16), str_bytes(packet.reason_string->Some_0@), pk0);
+        } else { lemma_g_regroup0(s0, cur, pre, pk0); }
+        assert(steps@ == cur);
+        acc = pre + opt_str_prop_bytes(31u8, packet.reason_string); pre5 = acc;
+    }
+//@@at before "let mut verif_enum0: usize = 0;"
+            proof {
+                lemma_g_regroup0(s0, cur, pre5, pk0);
+            }
+//@@loop 0 iter=it
+            invariant
+                packet.user_properties is Some, properties@ == packet.user_properties->Some_0@, it.seq().len() == properties@.len(), count_ok(properties@.len()),
+                ups_ok(packet.user_properties), pk0 == MqttPacket::Pubrel(*packet),
+                verif_enum0 == it.index@,
+                cur == steps@,
+                g_inv(s0, steps@, pre5 + ups_bytes(properties@, it.index@ as nat), pk0),
+                it.index@ == it.seq().len() ==> g_inv(s0, steps@, pre5 + ups_piece(packet.user_properties), pk0),
+//@@at before "verif_enum0 += 1;"
+                proof { assert(it.index@ < it.seq().len()); }
+//@@bodyend_of_loop 0
+                proof {
+                    let n = it.index@;
+                    let u = properties@[n];
+                    assert(*user_property == u);
+                    assert(up_ok(u));
+                    acc = pre5 + ups_bytes(properties@, n as nat);
+                    { let x = EncodingStep::Uint8(38u8); lemma_g_whole_int(x, pk0); lemma_g_push1(s0, cur, x, acc, int_bytes(x), pk0); cur = cur.push(x); acc = acc + int_bytes(x); }
+                    { let x = EncodingStep::Uint16(blen(u.name@) as u16); lemma_g_whole_int(x, pk0); lemma_g_push1(s0, cur, x, acc, int_bytes(x), pk0); cur = cur.push(x); acc = acc + int_bytes(x); }
+                    { let y = steps@[steps@.len() - 3]; assert(g_whole(y, str_bytes(u.name@), pk0)) by { reveal(g_whole); assert(get_pubrel_packet_user_property.requires((&pk0, i))); } assert(step_off(y) == 0); lemma_g_push1(s0, cur, y, acc, str_bytes(u.name@), pk0); cur = cur.push(y); acc = acc + str_bytes(u.name@); }
+                    { let x = EncodingStep::Uint16(blen(u.value@) as u16); lemma_g_whole_int(x, pk0); lemma_g_push1(s0, cur, x, acc, int_bytes(x), pk0); cur = cur.push(x); acc = acc + int_bytes(x); }
+                    { let y = steps@[steps@.len() - 1]; assert(g_whole(y, str_bytes(u.value@), pk0)) by { reveal(g_whole); assert(get_pubrel_packet_user_property.requires((&pk0, i))); } assert(step_off(y) == 0); lemma_g_push1(s0, cur, y, acc, str_bytes(u.value@), pk0); cur = cur.push(y); acc = acc + str_bytes(u.value@); }
+                    assert(steps@ == cur);
+                    lemma_g_regroup_up(s0, cur, pre5, properties@, n as nat, pk0);
+                }
+//@@at before "Ok(()) @nth=3/3"
+    proof {
+        if packet.user_properties is None { lemma_g_regroup0(s0, cur, pre5, pk0); }
+        acc = pre5 + ups_piece(packet.user_properties);
+        lemma_g_final(s0, cur, acc, pk0);
+        lemma_lead_empty7(seq![0x62u8], vli((3 + plen + vli_len(plen)) as nat), be16_bytes(packet.packet_id), seq![packet.reason_code as u8], vli(plen), opt_str_prop_bytes(31u8, packet.reason_string), ups_piece(packet.user_properties));
+        assert(acc == ack5_bytes(0x62u8, packet.packet_id, packet.reason_code as u8, packet.reason_code == PubrelReasonCode::Success, packet.reason_string, packet.user_properties));
+    }
+//@end
+
+//@fn gneiss-mqtt/src/mqtt/pubcomp.rs get_pubcomp_packet_reason_string props=C02 via=gneiss-mqtt/src/encode.rs:define_ack_packet_reason_string_accessor
+    requires packet matches MqttPacket::Pubcomp(p) && p.reason_string is Some,
+    ensures packet matches MqttPacket::Pubcomp(p) && p.reason_string matches Some(t) && r@ == t@,
+//@end
+//@fn gneiss-mqtt/src/mqtt/pubcomp.rs get_pubcomp_packet_user_property props=C02 via=gneiss-mqtt/src/encode.rs:define_ack_packet_user_property_accessor
+    requires packet matches MqttPacket::Pubcomp(p) && p.user_properties matches Some(ups) && index < ups@.len(),
+    ensures packet matches MqttPacket::Pubcomp(p) && p.user_properties matches Some(ups) && *r == ups@[index as int],
+//@end
+//@fn gneiss-mqtt/src/mqtt/pubcomp.rs compute_pubcomp_packet_length_properties props=C02 via=gneiss-mqtt/src/encode.rs:define_ack_packet_lengths_function
+    requires ack5_sendable(packet.reason_string, packet.user_properties),
+    ensures
+        r matches Ok((rem, props)) && props == ack5_props_len(packet.reason_string, packet.user_properties)
+            && rem == (if props == 0 { if packet.reason_code == PubcompReasonCode::Success { 2int } else { 3 } } else { 3 + props + vli_len(props as nat) }),
+//@@at bodystart
+    proof { if packet.user_properties is Some { lemma_ups_len_bound(packet.user_properties->Some_0@, packet.user_properties->Some_0@.len()); } }
+//@@at before "Ok(((3 + property_section_length"
+    proof { lemma_vli_len(property_section_length as nat); }
+//@end
+
+//@fn gneiss-mqtt/src/mqtt/pubcomp.rs write_pubcomp_encoding_steps5 props=C02,C05 via=gneiss-mqtt/src/encode.rs:define_ack_packet_encoding_impl5 desugar fnptr_opaque expand=gneiss-mqtt/src/encode.rs:encode_user_properties+gneiss-mqtt/src/encode.rs:encode_user_property
+//@@attr #[verifier::rlimit(100)]
+//@@attr #[verifier::spinoff_prover]
+    requires
+        ack5_sendable(packet.reason_string, packet.user_properties),
+    ensures
+        r is Ok,
+        steps_wf(old(steps)@, MqttPacket::Pubcomp(*packet)) ==> steps_wf(final(steps)@, MqttPacket::Pubcomp(*packet)),
+        flat(final(steps)@, MqttPacket::Pubcomp(*packet)) == flat(old(steps)@, MqttPacket::Pubcomp(*packet)) + ack5_bytes(0x70u8, packet.packet_id, packet.reason_code as u8, packet.reason_code == PubcompReasonCode::Success, packet.reason_string, packet.user_properties),
+//@@at bodystart
+    let ghost s0 = steps@;
+    let ghost mut cur = steps@;
+    let ghost mut acc = Seq::<u8>::empty();
+    let ghost mut pre5 = Seq::<u8>::empty();
+    let ghost pk0 = MqttPacket::Pubcomp(*packet);
+    let ghost plen = ack5_props_len(packet.reason_string, packet.user_properties);
+    proof { lemma_g_init(s0, pk0); }
+//@@at after "encode_integral_expression!(steps, Uint8, PUBCOMP_FIRST_BYTE);"
+    proof {
+        assert(PUBCOMP_FIRST_BYTE == 0x70u8) by (compute);
+        { let x = EncodingStep::Uint8(0x70u8); lemma_g_whole_int(x, pk0); lemma_g_push1(s0, cur, x, acc, int_bytes(x), pk0); cur = cur.push(x); acc = acc + int_bytes(x); }
+        assert(steps@ == cur);
+    }
+//@@at after "encode_integral_expression!(steps, Vli, total_remaining_length);"
+    proof {
+        { let x = EncodingStep::Vli(total_remaining_length); lemma_g_whole_int(x, pk0); lemma_g_push1(s0, cur, x, acc, int_bytes(x), pk0); cur = cur.push(x); acc = acc + int_bytes(x); }
+        assert(steps@ == cur);
+    }
+//@@at after "encode_integral_expression!(steps, Uint16, packet.packet_id);"
+    proof {
+        { let x = EncodingStep::Uint16(packet.packet_id); lemma_g_whole_int(x, pk0); lemma_g_push1(s0, cur, x, acc, int_bytes(x), pk0); cur = cur.push(x); acc = acc + int_bytes(x); }
+        assert(steps@ == cur);
+    }
+//@@at before "return Ok(()); @nth=1/2"
+        proof {
+            lemma_g_final(s0, cur, acc, pk0);
+            lemma_lead_empty3(seq![0x70u8], vli(2), be16_bytes(packet.packet_id));
+            assert(acc == ack5_bytes(0x70u8, packet.packet_id, packet.reason_code as u8, packet.reason_code == PubcompReasonCode::Success, packet.reason_string, packet.user_properties));
+        }
+//@@at after "encode_enum!(steps, Uint8, u8, packet.reason_code);"
+    proof {
+        { let x = EncodingStep::Uint8(packet.reason_code as u8); lemma_g_whole_int(x, pk0); lemma_g_push1(s0, cur, x, acc, int_bytes(x), pk0); cur = cur.push(x); acc = acc + int_bytes(x); }
+        assert(steps@ == cur);
+    }
+//@@at before "return Ok(()); @nth=2/2"
+        proof {
+            lemma_g_final(s0, cur, acc, pk0);
+            lemma_lead_empty4(seq![0x70u8], vli(3), be16_bytes(packet.packet_id), seq![packet.reason_code as u8]);
+            assert(acc == ack5_bytes(0x70u8, packet.packet_id, packet.reason_code as u8, packet.reason_code == PubcompReasonCode::Success, packet.reason_string, packet.user_properties));
+        }
+//@@at after "encode_integral_expression!(steps, Vli, property_length);"
+    proof {
+        { let x = EncodingStep::Vli(property_length); lemma_g_whole_int(x, pk0); lemma_g_push1(s0, cur, x, acc, int_bytes(x), pk0); cur = cur.push(x); acc = acc + int_bytes(x); }
+        assert(steps@ == cur);
+    }
+//@@at after "encode_optional_string_property!(steps, get_pubcomp_packet_reason_string, PROPERTY_KEY_REASON_STRING, packet.reason_string);"
+    proof {
+        let pre = acc;
+        if packet.reason_string is Some {
+            { let x = EncodingStep::Uint8(31u8); lemma_g_whole_int(x, pk0); lemma_g_push1(s0, cur, x, acc, int_bytes(x), pk0); cur = cur.push(x); acc = acc + int_bytes(x); }
+            { let x = EncodingStep::Uint16(blen(packet.reason_string->Some_0@) as u16); lemma_g_whole_int(x, pk0); lemma_g_push1(s0, cur, x, acc, int_bytes(x), pk0); cur = cur.push(x); acc = acc + int_bytes(x); }
+            { let y = steps@[steps@.len() - 1]; assert(g_whole(y, str_bytes(packet.reason_string->Some_0@), pk0)) by { reveal(g_whole); assert(get_pubcomp_packet_reason_string.requires((&pk0,))); } assert(step_off(y) == 0); lemma_g_push1(s0, cur, y, acc, str_bytes(packet.reason_string->Some_0@), pk0); cur = cur.push(y); acc = acc + str_bytes(packet.reason_string->Some_0@); }
+            lemma_g_regroup3(s0, cur, pre, seq![31u8], be16_bytes(blen(packet.reason_string->Some_0@) as u16), str_bytes(packet.reason_string->Some_0@), pk0);
+        } else { lemma_g_regroup0(s0, cur, pre, pk0); }
+        assert(steps@ == cur);
+        acc = pre + opt_str_prop_bytes(31u8, packet.reason_string); pre5 = acc;
+    }
+//@@at before "let mut verif_enum0: usize = 0;"
+            proof {
+                lemma_g_regroup0(s0, cur, pre5, pk0);
+            }
+//@@loop 0 iter=it
+            invariant
+                packet.user_properties is Some, properties@ == packet.user_properties->Some_0@, it.seq().len() == properties@.len(), count_ok(properties@.len()),
+                ups_ok(packet.user_properties), pk0 == MqttPacket::Pubcomp(*packet),
+                verif_enum0 == it.index@,
+                cur == steps@,
+                g_inv(s0, steps@, pre5 + ups_bytes(properties@, it.index@ as nat), pk0),
+                it.index@ == it.seq().len() ==> g_inv(s0, steps@, pre5 + ups_piece(packet.user_properties), pk0),
+//@@at before "verif_enum0 += 1;"
+                proof { assert(it.index@ < it.seq().len()); }
+//@@bodyend_of_loop 0
+                proof {
+                    let n = it.index@;
+                    let u = properties@[n];
+                    assert(*user_property == u);
+                    assert(up_ok(u));
+                    acc = pre5 + ups_bytes(properties@, n as nat);
+                    { let x = EncodingStep::Uint8(38u8); lemma_g_whole_int(x, pk0); lemma_g_push1(s0, cur, x, acc, int_bytes(x), pk0); cur = cur.push(x); acc = acc + int_bytes(x); }
+                    { let x = EncodingStep::Uint16(blen(u.name@) as u16); lemma_g_whole_int(x, pk0); lemma_g_push1(s0, cur, x, acc, int_bytes(x), pk0); cur = cur.push(x); acc = acc + int_bytes(x); }
+                    { let y = steps@[steps@.len() - 3]; assert(g_whole(y, str_bytes(u.name@), pk0)) by { reveal(g_whole); assert(get_pubcomp_packet_user_property.requires((&pk0, i))); } assert(step_off(y) == 0); lemma_g_push1(s0, cur, y, acc, str_bytes(u.name@), pk0); cur = cur.push(y); acc = acc + str_bytes(u.name@); }
+                    { let x = EncodingStep::Uint16(blen(u.value@) as u16); lemma_g_whole_int(x, pk0); lemma_g_push1(s0, cur, x, acc, int_bytes(x), pk0); cur = cur.push(x); acc = acc + int_bytes(x); }
+                    { let y = steps@[steps@.len() - 1]; assert(g_whole(y, str_bytes(u.value@), pk0)) by { reveal(g_whole); assert(get_pubcomp_packet_user_property.requires((&pk0, i))); } assert(step_off(y) == 0); lemma_g_push1(s0, cur, y, acc, str_bytes(u.value@), pk0); cur = cur.push(y); acc = acc + str_bytes(u.value@); }
+                    assert(steps@ == cur);
+                    lemma_g_regroup_up(s0, cur, pre5, properties@, n as nat, pk0);
+                }
+//@@at before "Ok(()) @nth=3/3"
+    proof {
+        if packet.user_properties is None { lemma_g_regroup0(s0, cur, pre5, pk0); }
+        acc = pre5 + ups_piece(packet.user_properties);
+        lemma_g_final(s0, cur, acc, pk0);
+        lemma_lead_empty7(seq![0x70u8], vli((3 + plen + vli_len(plen)) as nat), be16_bytes(packet.packet_id), seq![packet.reason_code as u8], vli(plen), opt_str_prop_bytes(31u8, packet.reason_string), ups_piece(packet.user_properties));
+        assert(acc == ack5_bytes(0x70u8, packet.packet_id, packet.reason_code as u8, packet.reason_code == PubcompReasonCode::Success, packet.reason_string, packet.user_properties));
+    }
+//@end
+
+pub proof fn lemma_ups_len_bound(ps: Seq<UserProperty>, n: nat)
+    requires n <= ps.len(), forall|i: int| 0 <= i < ps.len() ==> up_ok(#[trigger] ps[i]),
+    ensures user_props_len(ps, n) <= n * 131075,
+    decreases n
+{ if n > 0 { lemma_ups_len_bound(ps, (n - 1) as nat); assert(up_ok(ps[n - 1])); } }
+
 // ---- MQTT 5 dispatch: PUBLISH and PINGREQ are under contract; the other writers are signature-only stubs with NO postcondition
 #[verifier::external_body] pub fn write_connect_encoding_steps5(packet: &ConnectPacket, context: &EncodingContext, steps: &mut VecDeque<EncodingStep>) -> GneissResult<()> { unimplemented!() }
 #[verifier::external_body] pub fn write_connack_encoding_steps5(packet: &ConnackPacket, context: &EncodingContext, steps: &mut VecDeque<EncodingStep>) -> GneissResult<()> { unimplemented!() }
-#[verifier::external_body] pub fn write_puback_encoding_steps5(packet: &PubackPacket, context: &EncodingContext, steps: &mut VecDeque<EncodingStep>) -> GneissResult<()> { unimplemented!() }
-#[verifier::external_body] pub fn write_pubrec_encoding_steps5(packet: &PubrecPacket, context: &EncodingContext, steps: &mut VecDeque<EncodingStep>) -> GneissResult<()> { unimplemented!() }
-#[verifier::external_body] pub fn write_pubrel_encoding_steps5(packet: &PubrelPacket, context: &EncodingContext, steps: &mut VecDeque<EncodingStep>) -> GneissResult<()> { unimplemented!() }
-#[verifier::external_body] pub fn write_pubcomp_encoding_steps5(packet: &PubcompPacket, context: &EncodingContext, steps: &mut VecDeque<EncodingStep>) -> GneissResult<()> { unimplemented!() }
 #[verifier::external_body] pub fn write_suback_encoding_steps5(packet: &SubackPacket, context: &EncodingContext, steps: &mut VecDeque<EncodingStep>) -> GneissResult<()> { unimplemented!() }
 #[verifier::external_body] pub fn write_unsuback_encoding_steps5(packet: &UnsubackPacket, context: &EncodingContext, steps: &mut VecDeque<EncodingStep>) -> GneissResult<()> { unimplemented!() }
 #[verifier::external_body] pub fn write_disconnect_encoding_steps5(packet: &DisconnectPacket, context: &EncodingContext, steps: &mut VecDeque<EncodingStep>) -> GneissResult<()> { unimplemented!() }
@@ -3459,12 +3993,19 @@ pub open spec fn wire5(pk: MqttPacket, res: OutboundAliasResolution) -> Option<S
         MqttPacket::Publish(p) => Some(publish5_bytes(p, res)),
         MqttPacket::Unsubscribe(p) => Some(unsubscribe5_bytes(p)),
         MqttPacket::Subscribe(p) => Some(subscribe5_bytes(p)),
+        MqttPacket::Puback(p) => Some(ack5_bytes(0x40u8, p.packet_id, p.reason_code as u8, p.reason_code == PubackReasonCode::Success, p.reason_string, p.user_properties)),
+        MqttPacket::Pubrec(p) => Some(ack5_bytes(0x50u8, p.packet_id, p.reason_code as u8, p.reason_code == PubrecReasonCode::Success, p.reason_string, p.user_properties)),
+        MqttPacket::Pubrel(p) => Some(ack5_bytes(0x62u8, p.packet_id, p.reason_code as u8, p.reason_code == PubrelReasonCode::Success, p.reason_string, p.user_properties)),
+        MqttPacket::Pubcomp(p) => Some(ack5_bytes(0x70u8, p.packet_id, p.reason_code as u8, p.reason_code == PubcompReasonCode::Success, p.reason_string, p.user_properties)),
         MqttPacket::Pingreq(_) => Some(seq![0xC0u8, 0u8]),
         _ => None,
     }
 }
 pub open spec fn sendable5(pk: MqttPacket, res: OutboundAliasResolution) -> bool {
-    match pk { MqttPacket::Publish(p) => publish5_sendable(p, res), MqttPacket::Unsubscribe(p) => unsubscribe5_sendable(p), MqttPacket::Subscribe(p) => subscribe5_sendable(p), _ => true }
+    match pk { MqttPacket::Publish(p) => publish5_sendable(p, res), MqttPacket::Unsubscribe(p) => unsubscribe5_sendable(p), MqttPacket::Subscribe(p) => subscribe5_sendable(p),
+        MqttPacket::Puback(p) => ack5_sendable(p.reason_string, p.user_properties), MqttPacket::Pubrec(p) => ack5_sendable(p.reason_string, p.user_properties),
+        MqttPacket::Pubrel(p) => ack5_sendable(p.reason_string, p.user_properties), MqttPacket::Pubcomp(p) => ack5_sendable(p.reason_string, p.user_properties),
+        _ => true }
 }
 //@fn gneiss-mqtt/src/encode.rs write_encoding_steps5 props=C02,C17
     requires sendable5(*mqtt_packet, context.outbound_alias_resolution),
